@@ -40,7 +40,7 @@ MIN_NONTRIVIAL = {'quick': 1000, 'thorough': 30000}
 REQUIRED_MONITORS = ['battery', 'baseline', 'baseline:other-order', 'baseline:other-hashseed', 'shadow-cache:compare',
                      'shadow-cache:stored', 'fresh-object', 'state-audit',
                      'object-reuse', 'object-reuse:dry-run-between',
-                     'trs-from-trs-object']
+                     'trs-from-trs-object', 'builders-follow-master']
 SHARD_TIMEOUT = {'quick': 600, 'thorough': 5400}
 
 PROBE_PLSS = [
@@ -107,6 +107,14 @@ def probes(pytrs):
     # An old object must follow the MasterConfig in force NOW.
     add(lambda: [ll['tract'].set_twprgesec(154, 97, 14),
                  T('y').set_twprgesec(7, 9, 1)])
+
+    # Every builder reads the default directions in force NOW.
+    add(lambda: [pytrs.TRS.from_twprgesec(154, 97, 14).trs,
+                 pytrs.TRS.construct_trs(7, 9, 1),
+                 pytrs.TRS().set_twprgesec('15', '9', 2),
+                 T.from_twprgesec('x', 154, 97, 14).trs,
+                 T.from_twprgesec('x', 154, 97, 14, config='clean_qq').trs,
+                 pytrs.TRS.from_twprgesec('154n', 97, 14).trs])
 
     # A shared Config object configures every description the same way.
     def shared_cfg(txt):
@@ -314,6 +322,32 @@ OPS = ['parse', 'parse-probe-other-cfg', 'master', 'master-toggle-restore',
        'clear-then-warm-variants', 'object-reuse', 'trs-from-trs-object']
 
 
+def check_builders(pytrs, ctx, case, when):
+    """Absolute, not differential: whatever MasterConfig says now is what
+    every builder fills in (a default frozen at import time would agree with
+    a fresh interpreter and still be wrong)."""
+    T, TRS, MC = pytrs.Tract, pytrs.TRS, pytrs.MasterConfig
+    ns, ew = MC.default_ns.lower(), MC.default_ew.lower()
+    want = f"154{ns}97{ew}14"
+    ctx.hit('builders-follow-master')
+    got = {
+        'TRS.from_twprgesec': TRS.from_twprgesec(154, 97, 14).trs,
+        'TRS.construct_trs': TRS.construct_trs(154, 97, 14),
+        'TRS().set_twprgesec': TRS().set_twprgesec(154, 97, 14),
+        'Tract.from_twprgesec': T.from_twprgesec('x', 154, 97, 14).trs,
+        'Tract().set_twprgesec': T('x').set_twprgesec(154, 97, 14),
+        'PLSSDesc': pytrs.PLSSDesc('T154-R97 Sec 14: NE/4').tracts[0].trs,
+        'find_twprge': pytrs.find_twprge('T154-R97 Sec 14', preprocess=True)[0]
+        .lower().replace('t', '').replace('-r', '') + '14',
+    }
+    for name, val in got.items():
+        if val != want:
+            ctx.violation(
+                'result-depends-on-history', case,
+                f"{when}: MasterConfig says {ns}/{ew} but {name}(154, 97, 14) "
+                f"gives {val!r}, expected {want!r}", dedup=f"builder|{name}")
+
+
 def do_step(op, rng, pytrs, kept, ctx, case):
     P, T, TRS, MC = pytrs.PLSSDesc, pytrs.Tract, pytrs.TRS, pytrs.MasterConfig
     if op == 'parse':
@@ -337,6 +371,7 @@ def do_step(op, rng, pytrs, kept, ctx, case):
     elif op == 'master':
         MC.default_ns = rng.choice('ns')
         MC.default_ew = rng.choice('ew')
+        check_builders(pytrs, ctx, case, 'after MasterConfig was changed')
     elif op == 'master-toggle-restore':
         saved = (MC.default_ns, MC.default_ew)
         MC.default_ns = 's' if saved[0] == 'n' else 'n'
@@ -344,7 +379,9 @@ def do_step(op, rng, pytrs, kept, ctx, case):
         for txt, cfg in PROBE_PLSS[:3]:
             kept.append(P(txt, config=cfg))
         TRS.from_twprgesec(1, 2, 3)
+        check_builders(pytrs, ctx, case, 'while MasterConfig is toggled')
         MC.default_ns, MC.default_ew = saved
+        check_builders(pytrs, ctx, case, 'after MasterConfig was restored')
     elif op == 'clear':
         TRS._clear_cache()
     elif op == 'usecache':
